@@ -632,6 +632,14 @@ Proof. intros Hfix n. unfold guard_d3. apply forallb_forall. intros e _. apply d
 Theorem full_when_fixed : fixed_D3 = true -> forall n st pa v, deriv_impl n st pa v = deriv n st pa v.
 Proof. intros Hfix n. apply deriv_impl_is_deriv. apply guard_d3_when_fixed. exact Hfix. Qed.
 
+(* since fix D59 the switch IS true (these three lines stop compiling if the model is switched back) *)
+Theorem deriv_impl_full : forall n st pa v, deriv_impl n st pa v = deriv n st pa v.
+Proof. exact (full_when_fixed eq_refl). Qed.
+Theorem value_impl_full : forall n st pa v, value_impl n st pa v = value n st pa v.
+Proof. intros n. apply value_impl_is_value. apply (guard_d3_when_fixed eq_refl). Qed.
+Theorem input_impl_full : forall n pa sv v prods, input_impl n pa sv v prods = input_spec n pa sv v prods.
+Proof. intros n. apply input_impl_is_spec. apply (guard_d3_when_fixed eq_refl). Qed.
+
 (* a non-trivial guard-satisfying network: hierarchy depth 1, three nodes, a same-node producer of T/top/a, two parallel
    edges A -> T/top/a, a third edge from another node (two source nodes -> multi-source sum), T/top/b unconnected *)
 Definition nonvac_net : net := flatten (Circ [] [
